@@ -165,6 +165,11 @@ impl Timestamp {
     If any field of `parts` would overflow its maximum value, such as `days: 32`, then it will wrap into the next unit.
     */
     pub fn from_parts(parts: Parts) -> Option<Self> {
+        // Months and days are one-based
+        if parts.months == 0 || parts.days == 0 {
+            return None;
+        }
+
         let is_leap;
         let start_of_year;
         let year = (parts.years as i64) - 1900;
